@@ -223,6 +223,8 @@ func checkC15(c *Ctx, r *Report) {
 	c.checkConfigBoundsAll(r, cfg)
 	c.checkAttrLookup(r)
 	c.checkSubst(r)
+	c.checkCamelShifts(r)
+	c.checkParseWidth(r)
 	c.checkOptionalKey(r)
 }
 
@@ -357,41 +359,37 @@ func (c *Ctx) checkSubst(r *Report) {
 		return
 	}
 	key := "C15.subst:" + fname(inj)
-	fr := &Frame{Fn: inj}
 	found := false
 	var bad []string
+	camelFn := c.names().CamelFn
 	eachInstr(inj, func(in ssa.Instruction) {
 		lk, ok := in.(*ssa.Lookup)
 		if !ok || !lk.CommaOk {
 			return
 		}
-		kp := c.prov(lk.Index, fr).String()
-		camel := "<camel>"
-		if cf := c.names().CamelFn; cf != nil {
-			camel = qualName(cf)
-		}
-		if !strings.Contains(kp, camel+"(slice:slice(") {
+		// the substitution look-up: keyed directly by toCamelKey(<text derived from the value>)
+		kc, ok := lk.Index.(*ssa.Call)
+		if !ok || camelFn == nil || kc.Common().StaticCallee() != camelFn || len(kc.Call.Args) != 1 {
 			return
 		}
-		found = true
-		if !strings.Contains(kp, ", 2, binop:-(builtin:len(") || !strings.Contains(kp, ", 1))") {
-			bad = append(bad, "the property name is not the text between `${` and `}`: "+kp)
-		}
-		var pre, suf bool
-		for _, g := range guardsOfInstr(in) {
-			if call, ok := g.Cond.(*ssa.Call); ok && g.Polarity {
-				if k, ok := constString(callArg(call, 1)); ok {
-					if calleeIs(call, "strings", "", "HasPrefix") && k == "${" {
-						pre = true
-					}
-					if calleeIs(call, "strings", "", "HasSuffix") && k == "}" {
-						suf = true
-					}
+		sf := c.stripForm(kc.Call.Args[0], lk, 0)
+		if sf == nil {
+			// the attribute's own key is built from a constant tag part, not from the value: not the substitution
+			if _, isConst := c.prov(kc.Call.Args[0], &Frame{Fn: inj}).constString(); isConst {
+				return
+			}
+			found = true
+			bad = append(bad, "the property name is not the value with a leading `${` and a trailing `}` removed: "+c.prov(kc.Call.Args[0], &Frame{Fn: inj}).String())
+		} else {
+			found = true
+			if sf.pre != "${" || sf.suf != "}" {
+				bad = append(bad, fmt.Sprintf("the property name is the value without %q in front and %q at the end (want `${` and `}`)", sf.pre, sf.suf))
+			}
+			for _, cond := range sf.conds {
+				if !guardedTrue(lk, cond) {
+					bad = append(bad, "substitution is not restricted to values of the form ${…}")
 				}
 			}
-		}
-		if !pre || !suf {
-			bad = append(bad, "substitution is not restricted to values of the form ${…}")
 		}
 		// miss ⇒ error
 		missErr := false
@@ -423,6 +421,309 @@ func (c *Ctx) checkSubst(r *Report) {
 	default:
 		r.OK(key, "${key} → top-level property toCamelKey(key); only for values of that form; absent property ⇒ error")
 	}
+}
+
+// checkCamelShifts: in the key normaliser every case shift of a byte (c ± 32) is applied to exactly the letters of
+// one case — upper-casing to 'a'..'z', lower-casing to 'A'..'Z' — decided by evaluating the byte tests that guard the
+// shift for all 256 byte values. A letter left out of the range keeps kebab/snake spellings of a key from meeting
+// its camelCase spelling.
+func (c *Ctx) checkCamelShifts(r *Report) {
+	fn := c.names().CamelFn
+	if fn == nil {
+		return
+	}
+	r.SawFunc(fn)
+	n := 0
+	eachInstr(fn, func(in ssa.Instruction) {
+		b, ok := in.(*ssa.BinOp)
+		if !ok || (b.Op != token.ADD && b.Op != token.SUB) || !isByteType(b.Type()) {
+			return
+		}
+		k, ok := constInt(b.Y)
+		if !ok || k != 32 {
+			return
+		}
+		n++
+		what, lo, hi := "upper-casing", int64('a'), int64('z')
+		if b.Op == token.ADD {
+			what, lo, hi = "lower-casing", int64('A'), int64('Z')
+		}
+		key := fmt.Sprintf("C15.camel:%s#%s@%s", fname(fn), what, c.instrPos(b))
+		key = key[:strings.LastIndex(key, "@")] + fmt.Sprintf("#%d", n)
+		var got []int
+		undec := false
+		for v := int64(0); v < 256; v++ {
+			ev := &Evaluator{Assume: func(x ssa.Value, fr *Frame) (constant.Value, bool) {
+				if x == b.X {
+					return constant.MakeInt64(v), true
+				}
+				return nil, false
+			}}
+			all := true
+			for _, g := range guardsOfInstr(b) {
+				if !dependsOn(g.Cond, b.X, 0) {
+					continue
+				}
+				kv, ok := ev.eval(g.Cond, nil, nil)
+				if !ok || kv.Kind() != constant.Bool {
+					undec = true
+					continue
+				}
+				if constant.BoolVal(kv) != g.Polarity {
+					all = false
+				}
+			}
+			if all {
+				got = append(got, int(v))
+			}
+		}
+		r.Count("byte_values_evaluated", 256)
+		var want []int
+		for v := lo; v <= hi; v++ {
+			want = append(want, int(v))
+		}
+		switch {
+		case undec:
+			r.Undecided(key, c.instrPos(b), "a guard of the case shift mixes the byte with other data")
+		case fmt.Sprint(got) != fmt.Sprint(want):
+			r.Fail(key, c.instrPos(b), "%s is applied to the bytes %s, expected exactly %s: a key spelled with '-' or '_' before a letter outside that set does not normalise to its camelCase spelling", what, setDesc(got), setDesc(want))
+		default:
+			r.OK(key, "%s applied to exactly %s", what, setDesc(want))
+		}
+	})
+	r.Count("case_shifts", n)
+	if n == 0 {
+		r.OKTrivial("C15.camel:"+fname(fn), "no byte ± 32 case shift in the key normaliser (case conversion in another form is not decided here)")
+	}
+}
+
+// checkParseWidth: an integer attribute of the platform's widest registered kind must accept every value of its
+// type: a constant bit size passed to strconv.ParseInt/ParseUint in the attribute injector is 0 or 64.
+func (c *Ctx) checkParseWidth(r *Report) {
+	inj := c.names().AttrInjector
+	if inj == nil {
+		return
+	}
+	n := 0
+	eachInstr(inj, func(in ssa.Instruction) {
+		call, ok := in.(*ssa.Call)
+		if !ok || !(calleeIs(call, "strconv", "", "ParseInt") || calleeIs(call, "strconv", "", "ParseUint")) || len(call.Call.Args) != 3 {
+			return
+		}
+		n++
+		key := fmt.Sprintf("C15.int-width:%s→%s#%d", fname(inj), call.Common().StaticCallee().Name(), n)
+		k, isK := constInt(call.Call.Args[2])
+		switch {
+		case !isK:
+			r.OK(key, "bit size is computed (not a constant)")
+		case k == 0 || k == 64:
+			r.OK(key, "bit size %d accepts every value of the widest integer attribute kind", k)
+		default:
+			r.Fail(key, c.instrPos(call), "integers are parsed with the constant bit size %d although the same arm serves int/int64 (uint/uint64) attributes: well-typed values beyond %d bits are rejected as out of range", k, k)
+		}
+	})
+	r.Count("integer_parses", n)
+}
+
+// stripRes: v is base with the constant prefix pre and suffix suf removed, provided every value in conds is true.
+type stripRes struct {
+	base     ssa.Value
+	pre, suf string
+	conds    []ssa.Value
+}
+
+// guardedTrue: cond holds wherever `at` executes (it is a dominating guard taken on its true edge).
+func guardedTrue(at ssa.Instruction, cond ssa.Value) bool {
+	for _, g := range guardsOfInstr(at) {
+		if g.Cond == cond && g.Polarity {
+			return true
+		}
+	}
+	return false
+}
+
+// stripForm recognises the ways of taking a prefix and a suffix off a string: s[k:len(s)-m] under HasPrefix/HasSuffix
+// guards, strings.CutPrefix/CutSuffix (whose ok results become conditions), strings.TrimPrefix/TrimSuffix under the
+// matching Has* guard, and an in-module helper returning (stripped, ok).
+func (c *Ctx) stripForm(v ssa.Value, at ssa.Instruction, d int) *stripRes {
+	if d > 6 {
+		return nil
+	}
+	inner := func(x ssa.Value) *stripRes {
+		if sr := c.stripForm(x, at, d+1); sr != nil {
+			return sr
+		}
+		return &stripRes{base: x}
+	}
+	hasGuard := func(fn string, base ssa.Value, n int64) (string, ssa.Value) {
+		for _, g := range guardsOfInstr(at) {
+			if call, ok := g.Cond.(*ssa.Call); ok && g.Polarity && calleeIs(call, "strings", "", fn) && len(call.Call.Args) == 2 && call.Call.Args[0] == base {
+				if k, ok := constString(call.Call.Args[1]); ok && (n < 0 || int64(len(k)) == n) {
+					return k, call
+				}
+			}
+		}
+		return "", nil
+	}
+	switch x := v.(type) {
+	case *ssa.Extract:
+		call, ok := x.Tuple.(*ssa.Call)
+		if !ok || x.Index != 0 {
+			return nil
+		}
+		okOf := func() ssa.Value {
+			if rr := call.Referrers(); rr != nil {
+				for _, u := range *rr {
+					if ex, ok := u.(*ssa.Extract); ok && ex.Index == 1 {
+						return ex
+					}
+				}
+			}
+			return nil
+		}
+		if calleeIs(call, "strings", "", "CutPrefix") || calleeIs(call, "strings", "", "CutSuffix") {
+			k, ok := constString(callArg(call, 1))
+			okv := okOf()
+			if !ok || okv == nil {
+				return nil
+			}
+			sr := inner(call.Call.Args[0])
+			if calleeIs(call, "strings", "", "CutPrefix") {
+				sr.pre += k
+			} else {
+				sr.suf = k + sr.suf
+			}
+			sr.conds = append(sr.conds, okv)
+			return sr
+		}
+		// in-module helper (string, bool)
+		h := call.Common().StaticCallee()
+		if h == nil || !c.inModule(h) || len(h.Blocks) == 0 || h.Signature.Results().Len() != 2 {
+			return nil
+		}
+		var out *stripRes
+		okAll := true
+		eachInstr(h, func(in ssa.Instruction) {
+			ret, isRet := in.(*ssa.Return)
+			if !isRet || !okAll {
+				return
+			}
+			if k, isK := ret.Results[1].(*ssa.Const); isK && k.Value != nil && !constant.BoolVal(k.Value) {
+				return // a "no" return
+			}
+			sr := c.stripForm(ret.Results[0], ret, d+1)
+			if sr == nil {
+				okAll = false
+				return
+			}
+			p, isP := sr.base.(*ssa.Parameter)
+			if !isP {
+				okAll = false
+				return
+			}
+			exported := false
+			for _, cond := range sr.conds {
+				if cond == ret.Results[1] {
+					exported = true
+				} else if !guardedTrue(ret, cond) {
+					okAll = false
+				}
+			}
+			if k, isK := ret.Results[1].(*ssa.Const); isK && k.Value != nil && constant.BoolVal(k.Value) {
+				exported = true // unconditional yes: all conditions were guards inside the helper
+			}
+			if !exported {
+				okAll = false
+			}
+			idx := -1
+			for i, hp := range h.Params {
+				if hp == p {
+					idx = i
+				}
+			}
+			if idx < 0 || (out != nil && (out.pre != sr.pre || out.suf != sr.suf)) {
+				okAll = false
+				return
+			}
+			out = &stripRes{base: call.Call.Args[idx], pre: sr.pre, suf: sr.suf}
+		})
+		okv := okOf()
+		if !okAll || out == nil || okv == nil {
+			return nil
+		}
+		out.conds = []ssa.Value{okv}
+		return out
+	case *ssa.Call:
+		for _, fn := range [][2]string{{"TrimPrefix", "HasPrefix"}, {"TrimSuffix", "HasSuffix"}} {
+			if calleeIs(x, "strings", "", fn[0]) {
+				k, ok := constString(callArg(x, 1))
+				if !ok {
+					return nil
+				}
+				sr := inner(x.Call.Args[0])
+				got, g := hasGuard(fn[1], x.Call.Args[0], int64(len(k)))
+				if g == nil || got != k {
+					return nil
+				}
+				if fn[0] == "TrimPrefix" {
+					sr.pre += k
+				} else {
+					sr.suf = k + sr.suf
+				}
+				return sr
+			}
+		}
+	case *ssa.Slice:
+		if !isStringType(x.X.Type()) {
+			return nil
+		}
+		var lo, m int64
+		if x.Low != nil {
+			k, ok := constInt(x.Low)
+			if !ok {
+				return nil
+			}
+			lo = k
+		}
+		if x.High != nil {
+			b, ok := x.High.(*ssa.BinOp)
+			if !ok || b.Op != token.SUB {
+				return nil
+			}
+			lc, ok := b.X.(*ssa.Call)
+			if !ok {
+				return nil
+			}
+			if bi, ok := lc.Call.Value.(*ssa.Builtin); !ok || bi.Name() != "len" || lc.Call.Args[0] != x.X {
+				return nil
+			}
+			k, ok := constInt(b.Y)
+			if !ok {
+				return nil
+			}
+			m = k
+		}
+		sr := &stripRes{base: x.X}
+		if lo > 0 {
+			p, g := hasGuard("HasPrefix", x.X, lo)
+			if g == nil {
+				return nil
+			}
+			sr.pre = p
+		}
+		if m > 0 {
+			q, g := hasGuard("HasSuffix", x.X, m)
+			if g == nil {
+				return nil
+			}
+			sr.suf = q
+		}
+		if lo == 0 && m == 0 {
+			return nil
+		}
+		return sr
+	}
+	return nil
 }
 
 func init() {
